@@ -225,10 +225,10 @@ impl_ser_plain!(Covariance);
 /// Quantile with a p chosen by a const index into a small grid.
 #[derive(Clone)]
 pub struct QP<const I: usize>(pub average::Quantile);
-pub const QP_GRID: [f64; 4] = [0.0, 0.25, 0.5, 0.99];
+pub const QP_GRID: [f64; 8] = [0.0, 0.25, 0.5, 0.99, 0.2, 1. / 3., 0.9, 0.001];
 impl<const I: usize> Chunky for QP<I> {
     type Item = f64;
-    const NAME: &'static str = ["Quantile(p=0)", "Quantile(p=0.25)", "Quantile(p=0.5)", "Quantile(p=0.99)"][I];
+    const NAME: &'static str = ["Quantile(p=0)", "Quantile(p=0.25)", "Quantile(p=0.5)", "Quantile(p=0.99)", "Quantile(p=0.2)", "Quantile(p=1/3)", "Quantile(p=0.9)", "Quantile(p=0.001)"][I];
     fn fresh() -> Self {
         QP(average::Quantile::new(QP_GRID[I]))
     }
